@@ -2,9 +2,9 @@ package sx
 
 import (
 	"fmt"
-	"os"
 	"go/token"
 	"go/types"
+	"os"
 	"sort"
 	"strings"
 	"time"
@@ -17,22 +17,24 @@ import (
 
 // Config are the per-harness bounds.
 type Config struct {
-	Unwind      int           // max back-edges per loop header per frame
-	MaxSteps    int           // max SSA instructions per path
-	MaxPaths    int           // max completed paths per harness
-	MaxTime     time.Duration // wall budget per harness
-	SolverKind  string
-	SolverMS    int
-	Concrete    map[string]uint64 // concrete mode: nd values by name (conformance / replay-in-executor)
-	ConcreteSet bool
-	ReverseMaps bool
-	BranchMS    int // solver timeout for branch-feasibility queries (unknown = keep both sides)
-	Merge       map[string]bool // callees executed with path merging (must be statically pure)
-	Tier        int // 0 quick, 1 thorough (read by harnesses through nd.Tier/nd.Bound)
-	Trace       bool
+	Unwind        int           // max back-edges per loop header per frame
+	MaxSteps      int           // max SSA instructions per path
+	MaxPaths      int           // max completed paths per harness
+	MaxTime       time.Duration // wall budget per harness
+	SolverKind    string
+	SolverMS      int
+	Concrete      map[string]uint64 // concrete mode: nd values by name (conformance / replay-in-executor)
+	ConcreteSet   bool
+	ReverseMaps   bool
+	BranchMS      int             // solver timeout for branch-feasibility queries (unknown = keep both sides)
+	Merge         map[string]bool // callees executed with path merging (must be statically pure)
+	Tier          int             // 0 quick, 1 thorough (read by harnesses through nd.Tier/nd.Bound)
+	Trace         bool
 	HashInjective bool // assume the hash UFs are collision-free on the explored pre-images
-	FmtInts     bool // fmt.Sprintf renders symbolic integers exactly (forks on the digit count)
-	NoIfConv    bool // disable if-conversion of side-effect-free diamonds (debugging)
+	FmtInts       bool // fmt.Sprintf renders symbolic integers exactly (forks on the digit count)
+	MaxPreempt    int  // bound on preemptive context switches per path (0 = default 3)
+	ConcreteSched bool // concrete mode still uses the scheduler (schedule replay)
+	NoIfConv      bool // disable if-conversion of side-effect-free diamonds (debugging)
 }
 
 // CE is a counterexample found on a path.
@@ -43,6 +45,7 @@ type CE struct {
 	Model   map[string]uint64 // nd variable values
 	Widths  map[string]int
 	Choices map[string]int64 // IntRange / Pick concrete decisions
+	Sched   []int            // thread chosen at each scheduling decision (concurrent harnesses)
 	Where   string
 }
 
@@ -79,27 +82,32 @@ type Machine struct {
 	inPath   bool
 
 	// per-path state
-	prefix   []int32
-	trace    []int32
-	pc       []T
-	model    *sym.Evaluator
-	ndVars   map[string]T
-	choices  map[string]int64
-	steps    int
-	depth    int
-	ces      []CE
-	reached  map[string]bool
-	observes []string
-	asserted map[string]bool // assert ids evaluated on this path
-	notes    []string
-	threads  *sched
-	ufInj    map[string][]T
-	onceDone map[Ptr]bool
-	hashAcc  map[Ptr][]T
-	ufApps   map[string][]ufApp
-	curH     int
-	curFn    string // racy debug info: function currently interpreted
-	scope    *sumScope
+	prefix      []int32
+	trace       []int32
+	pc          []T
+	model       *sym.Evaluator
+	ndVars      map[string]T
+	choices     map[string]int64
+	steps       int
+	depth       int
+	ces         []CE
+	reached     map[string]bool
+	observes    []string
+	asserted    map[string]bool // assert ids evaluated on this path
+	notes       []string
+	threads     *sched
+	ufInj       map[string][]T
+	onceDone    map[Ptr]bool
+	hashAcc     map[Ptr][]T
+	typeHandles map[string]*Opaque
+	embedsDone  map[*ssa.Package]bool
+	ufApps      map[string][]ufApp
+	curH        int
+	lastH       int
+	lastHSet    bool
+	deadline    time.Time
+	curFn       string // racy debug info: function currently interpreted
+	scope       *sumScope
 
 	InitNotes []string
 
@@ -175,10 +183,19 @@ func (m *Machine) addPC(c T) {
 	m.S.Assert(c)
 }
 
+// checkDeadline ends the current path when the harness's wall budget is used
+// up (the budget is otherwise only examined between paths).
+func (m *Machine) checkDeadline() {
+	if !m.deadline.IsZero() && m.inPath && time.Now().After(m.deadline) {
+		m.abort("budget", "harness time budget exhausted inside a path")
+	}
+}
+
 func (m *Machine) ensureModel() {
 	if m.model != nil {
 		return
 	}
+	m.checkDeadline()
 	r := m.S.CheckT(m.Conf.BranchMS)
 	m.Stats.BranchQ++
 	switch r {
@@ -220,6 +237,7 @@ func (m *Machine) feasible(c T) bool {
 	if c.IsConst() {
 		return c.Val != 0
 	}
+	m.checkDeadline()
 	if v, ok := m.evalModel(c); ok && v {
 		return true
 	}
@@ -463,6 +481,9 @@ func (m *Machine) recordCE(id, kind, where string, env map[string]uint64) {
 	for k, v := range m.choices {
 		ce.Choices[k] = v
 	}
+	if m.threads != nil {
+		ce.Sched = append([]int(nil), m.threads.choices...)
+	}
 	m.ces = append(m.ces, ce)
 }
 
@@ -572,6 +593,7 @@ func (m *Machine) RunPath(fn *ssa.Function, prefix []int32) (res PathResult) {
 		m.Stats.Steps += int64(m.steps)
 	}()
 	m.callFunction(nil, token.NoPos, fn, nil)
+	m.waitAll(nil) // goroutines the harness started run to completion
 	return
 }
 
